@@ -101,6 +101,11 @@ def _empty():
             "reach": {}, "inconclusive": [], "notes": [], "extra": [], "shard_wall": []}
 
 
+def _is_private_anchor(a):
+    name = a.split(":")[-1].split(".")[-1]
+    return name.startswith("_") and not name.startswith("__")
+
+
 def absorb(m, r, label):
     for k, o in r["oracles"].items():
         t = m["oracles"].setdefault(k, {"n": 0, "pass": 0, "grey": 0, "fail": 0, "max_err": 0.0, "max_err_pass": 0.0})
@@ -221,7 +226,12 @@ def main(argv=None):
             n = sum(m["reach"].get(a, 0) for a in alts)
             reach_tab[" | ".join(alts)] = n
             if n == 0:
-                m["inconclusive"].append(f"anchored function never entered: {alts}")
+                if all(_is_private_anchor(a) for a in alts):
+                    # a private helper may legitimately be renamed / inlined by a refactoring: its absence alone does
+                    # not make the run vacuous (public anchors, REQUIRED_ORACLES and MIN_EVALS still have to be met)
+                    m["notes"].append(f"private anchor not entered (renamed or inlined?): {alts}")
+                else:
+                    m["inconclusive"].append(f"anchored function never entered: {alts}")
     evaluations = sum(o["n"] for o in m["oracles"].values())
     decided = sum(o["pass"] + o["fail"] for o in m["oracles"].values())
     min_evals = getattr(mod, "MIN_EVALS", {}).get(tier, 10)
